@@ -16,3 +16,58 @@ void GivaroC18_uses() {
     RecInt::rmint<7, RecInt::MG_ACTIVE> m; RecInt::rand(m); m.random();
     Givaro::Integer::seeding(1); Givaro::Integer r; Givaro::Integer::random(r, 10); Givaro::Integer::nonzerorandom(r, 10);
 }
+
+// ---- rarely instantiated rings and fields that are NOT in the object-model TARGETS of harness/c16_objmodel.py: their bodies get the
+// same decision (no const member writes a static or, through mutable / a cast / a pointer, a member of the shared object)
+#include "modular.h"
+#include "modular-balanced.h"
+#include "modular-extended.h"
+#include "montgomery.h"
+#include "zring.h"
+#include "gf2.h"
+#include "gfq.h"
+#include "givrandom.h"
+namespace Givaro {
+    template class Modular<int8_t>;
+    template class Modular<int16_t>;
+    template class Modular<uint8_t>;
+    template class Modular<uint16_t>;
+    template class Modular<int32_t, int64_t>;
+    template class Modular<uint32_t, uint64_t>;
+    template class Modular<int64_t, uint64_t>;
+    template class Modular<float, double>;
+    template class Modular<RecInt::ruint<6> >;
+    template class Modular<RecInt::ruint<7>, RecInt::ruint<8> >;
+    template class Modular<RecInt::rint<7> >;
+    template class ModularExtended<double>;
+    template class ModularExtended<float>;
+    template class ZRing<Integer>;
+    template class ZRing<double>;
+    template class ZRing<int64_t>;
+}
+template <class D, class E> void GivaroC18_ring_ops(const D& F, E& r, const E& a, const E& b) {
+    F.init(r); F.init(r, (int64_t)5); F.init(r, (uint64_t)5); F.init(r, Givaro::Integer(5)); F.init(r, 5.0);
+    F.assign(r, a); F.add(r, a, b); F.sub(r, a, b); F.mul(r, a, b); F.div(r, a, b); F.neg(r, a); F.inv(r, a);
+    F.addin(r, a); F.subin(r, a); F.mulin(r, a); F.divin(r, a); F.negin(r); F.invin(r);
+    F.axpy(r, a, b, a); F.axpyin(r, a, b); F.axmy(r, a, b, a); F.axmyin(r, a, b); F.maxpy(r, a, b, a); F.maxpyin(r, a, b);
+    F.isZero(a); F.isOne(a); F.isMOne(a); F.areEqual(a, b);
+    Givaro::Integer i; F.convert(i, a); int64_t l; F.convert(l, a); double d; F.convert(d, a);
+    F.characteristic(); F.cardinality(); F.write(std::cout, a); F.write(std::cout);
+    D G(F); D H; H = F; (void)G;
+}
+void GivaroC18_ring_uses() {
+    using namespace Givaro;
+    { Modular<int8_t> F(7); int8_t r = 0; GivaroC18_ring_ops(F, r, r, r); } { Modular<int16_t> F(7); int16_t r = 0; GivaroC18_ring_ops(F, r, r, r); }
+    { Modular<uint8_t> F(7); uint8_t r = 0; GivaroC18_ring_ops(F, r, r, r); } { Modular<uint16_t> F(7); uint16_t r = 0; GivaroC18_ring_ops(F, r, r, r); }
+    { Modular<int32_t, int64_t> F(7); int32_t r = 0; GivaroC18_ring_ops(F, r, r, r); } { Modular<uint32_t, uint64_t> F(7); uint32_t r = 0; GivaroC18_ring_ops(F, r, r, r); }
+    { Modular<int64_t, uint64_t> F(7); int64_t r = 0; GivaroC18_ring_ops(F, r, r, r); } { Modular<float, double> F(7); float r = 0; GivaroC18_ring_ops(F, r, r, r); }
+    { Modular<RecInt::ruint<6> > F(7); RecInt::ruint<6> r(0u); GivaroC18_ring_ops(F, r, r, r); }
+    { Modular<RecInt::rint<7> > F(7); RecInt::rint<7> r(0); GivaroC18_ring_ops(F, r, r, r); }
+    { Montgomery<RecInt::ruint<6> > F(7); RecInt::ruint<6> r(0u); GivaroC18_ring_ops(F, r, r, r); }
+    { ModularExtended<double> F(7); double r = 0; GivaroC18_ring_ops(F, r, r, r); } { ModularExtended<float> F(7); float r = 0; GivaroC18_ring_ops(F, r, r, r); }
+    { ModularBalanced<int32_t> F(7); int32_t r = 0; GivaroC18_ring_ops(F, r, r, r); }
+    { GF2 F; GF2::Element r, a, b; F.init(r, 1); F.init(a, (int64_t)3); F.add(r, a, b); F.mul(r, a, b); F.sub(r, a, b); F.div(r, a, a); F.neg(r, a); F.inv(r, a);
+      F.axpy(r, a, b, a); F.axpyin(r, a, b); F.maxpy(r, a, b, a); F.isZero(a); F.isOne(a); F.areEqual(a, b); F.write(std::cout, a); Integer i; F.convert(i, a);
+      std::vector<bool> v(4); F.init(v[1], 1); F.add(v[0], v[1], v[2]); F.mul(v[0], v[1], v[2]); F.axpyin(v[0], v[1], v[2]); GF2 G(F); (void)G; }
+    { GFqDom<int64_t> F(3, 2), G(5, 2); int64_t r = 0; std::vector<int64_t> v(3, 1); F.init(r, v); G.init(r, v); F.init(r, 5.0); Integer i; F.convert(i, r); }
+}
